@@ -336,3 +336,6 @@ LEMMAS = [_dc.replace(l, name=l.name.replace("C01/", "C18/")) for l in _C01_LEMM
 # element makes the main dump fail after the sub-files were written
 from contracts.share import shared as _shared18  # noqa: E402
 UNITS += _shared18("C18", "contracts.c08", "_namespace:recreate_branches", "_namespace:strip_meta")
+
+from contracts.share import carried as _carried  # noqa: E402
+UNITS += _carried("C18")
